@@ -78,4 +78,20 @@ theorem folds_all (s : Slice) (cs : List Consumer) (h : folds Rules.current s cs
           · exact ih h c' hc'
   · simp at h
 
+/-- `bypass_memory_only_ops` removes the input tensor of a memory-only operator only when nobody else reads it and no CPU
+    operator writes it; otherwise the operator stays as a copy (Memcpy) -/
+theorem bypass_only_when_private (npu mo : Bool) (n : Nat) (prods : List Bool) (h : bypassDecision npu mo n prods = .bypass) :
+    npu = true ∧ mo = true ∧ n ≤ 1 ∧ ∀ b ∈ prods, b = true := by
+  unfold bypassDecision at h
+  split at h
+  · cases h
+  · rename_i h1
+    split at h
+    · cases h
+    · rename_i h2
+      simp only [Bool.or_eq_true, Bool.not_eq_true', not_or, Bool.not_eq_false] at h1
+      simp only [Bool.or_eq_true, decide_eq_true_eq, List.any_eq_true, Bool.not_eq_true', not_or, not_exists, not_and,
+        Bool.not_eq_false] at h2
+      exact ⟨h1.1, h1.2, by omega, h2.2⟩
+
 end VelaVerif.Props.C01Slice
